@@ -94,13 +94,15 @@ def lineage(parent, t):
 class NpStub:
     """Contract-level stand-ins for the numpy calls made by classify / get_result_item on a distance row.
 
-    argmin: first index of the minimum (documented).  argsort: `perm` if the default (unstable) kind is requested -
-    any permutation that sorts the input is allowed by the contract, the harness supplies it symbolically and
-    constrains it to sort; the unique stable order if kind is 'stable' or 'mergesort'."""
+    argmin: first index of the minimum (documented).
+    argsort: with kind 'stable' / 'mergesort' the unique stable order.  With any other kind numpy promises only *a*
+    permutation that sorts the input: ties may come out in any order.  That freedom is the list `tiebreak` of symbolic
+    integers supplied by the harness: equal values are ordered by (tiebreak[j], j), so every sorting permutation is
+    reachable, and the choice is only looked at if the code under test actually requests an unstable sort."""
     inf = float('inf')
 
-    def __init__(self, perm=None):
-        self.perm = perm
+    def __init__(self, tiebreak=None):
+        self.tiebreak = tiebreak
         self.argsort_kinds = []
 
     @staticmethod
@@ -114,16 +116,28 @@ class NpStub:
     def argsort(self, ds, axis=-1, kind=None, order=None):
         self.argsort_kinds.append(kind)
         n = len(ds)
-        if kind in ('stable', 'mergesort') or self.perm is None:
-            idx = list(range(n))
-            # insertion sort: stable, only order comparisons on the (possibly symbolic) floats
-            for i in range(1, n):
-                j = i
-                while j > 0 and ds[idx[j]] < ds[idx[j - 1]]:
-                    idx[j], idx[j - 1] = idx[j - 1], idx[j]
-                    j -= 1
-            return idx
-        return list(self.perm)
+        stable = kind in ('stable', 'mergesort') or self.tiebreak is None
+        tb = self.tiebreak
+
+        def less(a, b):     # strict "a before b"
+            if ds[a] < ds[b]:
+                return True
+            if ds[b] < ds[a]:
+                return False
+            if stable:
+                return a < b
+            if tb[a] < tb[b]:
+                return True
+            if tb[b] < tb[a]:
+                return False
+            return a < b
+        idx = list(range(n))
+        for i in range(1, n):           # insertion sort: only order comparisons on the (possibly symbolic) values
+            j = i
+            while j > 0 and less(idx[j], idx[j - 1]):
+                idx[j], idx[j - 1] = idx[j - 1], idx[j]
+                j -= 1
+        return idx
 
 
 def sorts(perm, ds):
